@@ -8,7 +8,7 @@ VARIABLES i, nbad
 vars == <<i, nbad>>
 
 \* message kinds every rule must be able to carry to REST and back (scalars, repeated scalars, oneofs)
-StrictKinds == {"empty", "ascii", "unicode", "floats", "extremes", "bytes", "oneof", "repeated"}
+StrictKinds == {"empty", "ascii", "unicode", "floats", "extremes", "bytes", "oneof", "repeated", "tricky"}
 
 ObsMsg(o) == [name |-> o.msg.name, parent |-> o.msg.parent, num |-> o.msg.num, flag |-> o.msg.flag, kind_e |-> o.msg.kind_e,
               wrapped |-> o.msg.wrapped, ts |-> o.msg.ts, childname |-> o.msg.childname, page_size |-> o.msg.page_size,
